@@ -205,6 +205,10 @@ def run(ctx, selftest=False):
 
     # 3. binding self-test
     common.selftest_binding(ctx, tspec(CONFIGS[0]), first_trace, corruptions())
+
+    # 4. auxiliary monitor (thorough): free-running multi-threaded application under the race detector
+    if thorough or os.environ.get('VERIF_C12_RACE'):
+        race_stress(ctx)
     ctx.assumptions += [
         'harness/sched.Engine is a statement-by-statement re-implementation of akita v4.9.0 sim.SerialEngine '
         '(Run/Schedule/Pause/Continue) with yield points; the driver only sees sim.Engine',
@@ -212,6 +216,53 @@ def run(ctx, selftest=False):
         'commands are NoopCommands (one driver tick each); two-phase commands are covered by C01/C11 system runs',
     ]
     ctx.cov['fixed_findings'] = [k['id'] for k in vlib.known_fixed('C12')]
+
+
+def parse_races(out):
+    """Data-race reports of the Go race detector whose conflicting accesses are in sarchlab/mgpusim source
+    (a race entirely inside a dependency such as akita's id generator is not a finding about mgpusim)."""
+    races = []
+    for blk in out.split('WARNING: DATA RACE')[1:]:
+        blk = blk.split('==================')[0]
+        tops = []
+        lines = blk.splitlines()
+        for i, ln in enumerate(lines):
+            if ln.startswith(('Read at', 'Write at', 'Previous write at', 'Previous read at')) and i + 2 < len(lines):
+                tops.append((lines[i + 1].strip(), lines[i + 2].strip()))
+        in_repo = [fn for fn, loc in tops if '/repo/' in loc]
+        if in_repo:
+            races.append({'where': in_repo[0].replace('github.com/sarchlab/mgpusim/v4/amd/', '').rstrip('()'),
+                          'accesses': tops})
+    return races
+
+
+def race_stress(ctx):
+    drv = ctx.go_build('c12stress', race=True)
+    runs = 0
+    seen = {}
+    for i in range(6):
+        cwd = ctx.sub('stress_%d' % i)
+        env = dict(os.environ)
+        env['GODEBUG'] = 'randseednop=0'
+        env['GOMAXPROCS'] = str([16, 4, 2][i % 3])
+        argv = [drv, '-gpus', '1,2', '-verify', '-disable-rtm'] + (['-timing'] if i % 2 else [])
+        p = ctx.run(argv, cwd=cwd, timeout=1500, env=env, check=False)
+        runs += 1
+        for f in os.listdir(cwd):
+            os.remove(os.path.join(cwd, f))
+        for r in parse_races(p.stdout):
+            seen.setdefault(r['where'], r)
+        if '"ok":true' not in p.stdout and not parse_races(p.stdout):
+            if 'panic' in p.stdout:
+                ctx.report_failure('C12: concurrent workloads on separate GPUs crashed or failed verification: ' + p.stdout[-600:],
+                                   {'kind': 'concurrent_workload_failure'}, {'cmd': 'c12stress', 'argv': argv[1:]})
+            else:
+                raise vlib.Infra('c12stress did not finish: ' + p.stdout[-1500:])
+    for where, r in seen.items():
+        ctx.report_failure('C12: data race between application threads / simulation thread at %s: %s' % (where, r['accesses']),
+                           {'kind': 'data_race', 'where': where}, {'cmd': 'c12stress', 'race': r})
+    ctx.cov['race_stress_runs'] = runs
+    ctx.cov['race_reports_in_mgpusim'] = sorted(seen)
 
 
 def replay(ctx, path):
